@@ -93,6 +93,8 @@ def snapshot(net, include_results=False, skip=("converged",)):
             snap[k] = df_columns_digest(v)
         elif k == "user_pf_options":
             snap[k] = canon_deep({kk: vv for kk, vv in v.items() if kk != "hyd_flag"})
+        elif k == "sector":
+            snap[k] = canon_deep(str(v))  # StrEnum member and its plain string compare equal
         elif k == "component_list":
             snap[k] = canon_deep([c.__name__ if isinstance(c, type) else type(c).__name__ for c in v])
         else:
